@@ -169,7 +169,7 @@ def main(argv):
     if ck.replay:
         hs = [read_replay(ck.replay)]
     else:
-        n = 700 if ck.tier == "quick" else 3000
+        n = 700 if ck.tier == "quick" else 5000
         hs = corpus() + [gen_history(ck.rng, ck.tier == "thorough") for _ in range(n)]
     ck.correspond(hb, db, hs, label="props", ubsan_is_violation=r"types/json\.|core/device\.cpp",
                   nontrivial=lambda h, obs: any(o.startswith("{") for o in obs))
